@@ -12,6 +12,23 @@ BUILT = {
             'thousands of generated block-sparse matrices up to 12x12; each is judged by reconstruction, isometry, '
             'block-sparsity masks and charge multiplicities computed independently of pytenet. Absence is only shown for the enumerated scope.',
             'float64 with 1e-12 relative tolerance; numpy.linalg used by the oracle is trusted', '4 (C11)'),
+    'C12': ('Hypothesis random search over designed-spectrum block matrices and boundary tolerances; independent dense-SVD oracle',
+            'Exploration: generated block-sparse matrices with designed spectra (decaying, degenerate within/across blocks, rank deficient), '
+            'tolerances at 0, random and exactly on cumulative weights, plus two-site tensor splits with all three distributions; judged against numpy '
+            'dense SVD: isometry, masks, error identity, tolerance bound, ordering, maximality, input immutability.',
+            'float64, 1e-12 slack around boundary tolerances; numpy.linalg.svd trusted', '4 (C12)'),
+    'C14': ('Hypothesis random search over matrices with Krylov dimension known by construction; algebraic-relation oracle',
+            'Exploration: spectra, multiplicities, start-vector supports and iteration counts below/at/above the Krylov dimension are generated; '
+            'orthonormality, projected-map identity, Arnoldi relation, sign and size consistency are judged for the leading part.',
+            'n <= 14 (24 thorough); 1e-9 tolerance relative to ||A||', '4 (C14)'),
+    'C15': ('Hypothesis random search with Krylov dimension known by construction; numpy eigvalsh / scipy expm oracle',
+            'Exploration: Ritz bounds, norm preservation, exactness of both exponential branches and of the lowest Ritz value once the Krylov '
+            'space is exhausted, Rayleigh-quotient consistency below that point; one clause is excluded on the listed known finding F5.',
+            'n <= 14 (24 thorough); scipy.linalg.expm and numpy eigvalsh trusted; |dt| ||A|| <= 4', '4 (C15)'),
+    'C18': ('exhaustive enumeration of all bipartite graphs up to 4x4 (5x5 thorough) + Hypothesis graph families; DP / Kuhn / weak-duality oracle',
+            'Exploration, exhaustive for its finite scope: every edge set of every partition up to 4x4 (two edge orders; 5x5 in the thorough tier) is judged '
+            'against a bitmask-DP optimum; random and adversarial families up to 60x60 are judged by validity predicates, an independent Kuhn matching and Koenig duality.',
+            'termination is observed as the call returning (bounded by input size), no time-outs used as verdicts', '4 (C18)'),
 }
 
 NOT_YET = 'check not built yet in this revision of /verif (work in progress, see DESIGN.md section 4)'
